@@ -145,19 +145,23 @@ func parserRequestHeader(c *Client, req *Request) error {
 		// noBody or rawBody do not require special handling here.
 	}
 
-	// Set User-Agent header.
-	req.RawRequest.Header.SetUserAgent(defaultUserAgent)
-	if c.userAgent != "" {
-		req.RawRequest.Header.SetUserAgent(c.userAgent)
-	}
-	if req.userAgent != "" {
+	// Set User-Agent header: the request-level setter, then the client-level one; a User-Agent
+	// configured through the header API is kept, the default only fills the gap.
+	switch {
+	case req.userAgent != "":
 		req.RawRequest.Header.SetUserAgent(req.userAgent)
+	case c.userAgent != "":
+		req.RawRequest.Header.SetUserAgent(c.userAgent)
+	case len(req.RawRequest.Header.UserAgent()) == 0:
+		req.RawRequest.Header.SetUserAgent(defaultUserAgent)
 	}
 
-	// Set Referer header.
-	req.RawRequest.Header.SetReferer(c.referer)
-	if req.referer != "" {
+	// Set Referer header, in the same order; a Referer configured through the header API is kept.
+	switch {
+	case req.referer != "":
 		req.RawRequest.Header.SetReferer(req.referer)
+	case c.referer != "":
+		req.RawRequest.Header.SetReferer(c.referer)
 	}
 
 	// Set cookies from the cookie jar if available.
